@@ -558,7 +558,7 @@ func (x *Exec) harnessOp(op Op, res *OpResult) bool {
 			return true
 		}
 		sl := absent[pick(len(absent), op.A*7+op.B)]
-		p := w.CreatePod(sl.wi, &x.C.WLs[sl.wi], sl.name)
+		p := w.CreatePod(sl.wi, x.templateOf(sl.wi, op.C), sl.name)
 		if p == nil {
 			res.NoOp = true
 		} else {
@@ -575,7 +575,7 @@ func (x *Exec) harnessOp(op Op, res *OpResult) bool {
 		}
 		old := c[pick(len(c), op.A)]
 		w.DeletePod(old.Name)
-		p := w.CreatePod(old.WL, &x.C.WLs[old.WL], old.Name)
+		p := w.CreatePod(old.WL, x.templateOf(old.WL, op.C), old.Name)
 		res.Pod = p
 		res.Info = old.Name + " " + old.UID + " -> " + p.UID
 	case "phase":
@@ -841,6 +841,17 @@ func (x *Exec) logOp(i int, op Op, res *OpResult) {
 		}
 	}
 	x.Rec.Logf("%3d %-12s%s%s %s%s => %s", i, describe(op), pod, nodes, res.Info, errs, x.W.DumpState())
+}
+
+// templateOf returns the workload as its pod template stands for a new incarnation: an odd pick uses the edited request_ip_range.
+func (x *Exec) templateOf(wlIdx, pickC int) *WL {
+	wl := &x.C.WLs[wlIdx]
+	if len(wl.AltRanges) == 0 || pickC%2 == 0 {
+		return wl
+	}
+	cp := *wl
+	cp.Ranges = wl.AltRanges
+	return &cp
 }
 
 // quiesce: deliver everything, run all unbinds fault-free until none is pending, sync listers, one resync pass.
